@@ -105,6 +105,7 @@ Inductive exp : Type :=
 | ECast (e : exp) (T : ty)                            (* e as! T *)
 | EAttach (e : exp)                                   (* attach A() to e   (e a resource R) *)
 | EDestroy (e : exp)
+| ENilV                                               (* nil *)
 with exps : Type := ENil | ECons (e : exp) (es : exps)
 with stmt : Type :=
 | SLet (ln x : nat) (T : ty) (e : exp)
@@ -114,6 +115,8 @@ with stmt : Type :=
 | SIf (ln : nat) (c : exp) (th el : stmts)
 | SReturn (ln : nat) (e : exp)
 | SEmit (ln : nat) (e : exp)                          (* emit Ev(x: e) *)
+| SLet2 (ln x : nat) (T : ty) (t : target) (e : exp)   (* let x <- t <- e : second value transfer (resources) *)
+| SRemove (ln : nat) (t : target)                     (* remove A from t *)
 with stmts : Type := SNil | SCons (s : stmt) (ss : stmts).
 
 Inductive cond : Type :=
